@@ -343,6 +343,14 @@ def main(args):
         for ai, props in ents:
             units.append({'kind': 'gs1', 'module': 'stdnum.gs1_128', 'ais': [(ai, props)], 'L': 0, 'variants': [2] if tier == 'quick' else [0, 1, 2, 5],
                           'max_paths': 100, 'timeout': 25 if tier == 'quick' else 200, 'options': {'ai': ai}})
+    if getattr(args, 'units_only', False):
+        return units
+    if tier != 'quick':
+        # thorough = the quick tier's units first (larger caps), then everything else while the budget lasts
+        import copy
+        qa = copy.copy(args)
+        qa.tier, qa.units_only = 'quick', True
+        units = common.plan_thorough(units, main(qa))
     rep = common.Report('C11', tier)
     rep.assumptions = ASSUMPTIONS
     rep.bounds = {'registries': {n: sum(1 for _ in _flatten(t)) for n, t in trees.items()}, 'sampling': 'seed-rotated (VERIF_SEED) for registries above the per-tier cap'}
@@ -352,6 +360,6 @@ def main(args):
         if args.verbose:
             u = res['unit']
             print('[%d/%d] %s %s %s %s viol=%d' % (done, total, u['kind'], u.get('registry') or '', res.get('outcomes', res.get('error', res.get('skipped'))), res.get('wall_s'), len(res.get('violations', []))), file=sys.stderr)
-    for res in common.run_units(unit_fn, units, 400 if tier == 'quick' else 3400, progress, deadline):
+    for res in common.run_units(unit_fn, (units if tier == 'quick' else sorted(units, key=common._prio)), (lambda u: u.get('timeout', 200) * 2 + 200), progress, deadline):
         rep.add_unit(res)
     return rep.finish()
